@@ -488,14 +488,14 @@ def enumerate_faults(files, tier, seed):
         # truncations: new length L (the first removed byte is L)
         if not shared:
             # checksummed files are sampled densely; sort index / rollup files (never consumed by the query family) sparsely
-            k = (4 if f["kind"] == "csg" else 13) if quick else (4 if f["kind"] in ("srt", "crup") else 1)
+            k = (3 if f["kind"] == "csg" else 13) if quick else (4 if f["kind"] in ("srt", "crup") else 1)
             ph = rnd.randrange(k)
             for L in range(0, f["size"]):
                 if L in starts or (L % k == ph and not sparse):
                     r = region_at(f, L)
                     cases.append({"fi": fi, "fault": "trunc", "off": L, "val": None, "cls": cls_of(f, r, "trunc", L)})
         # single-byte modifications
-        k = 11 if quick else (4 if f["kind"] in ("srt", "crup") else 1)
+        k = (6 if f["kind"] == "csg" else 11) if quick else (4 if f["kind"] in ("srt", "crup") else 1)
         ph = rnd.randrange(k)
         for o in range(lo, hi):
             old = f["bytes"][o]
@@ -1090,7 +1090,7 @@ def run(chk):
                           "by a fresh engine process; distinct_nontrivial = model fault classes (kind/region/fault) in which at least one "
                           "injected fault changed an answer or raised an error (the damaged bytes were consumed by the query family)",
                      exhaustive=not quick,
-                     extra={"tier_plan": ("quick: first (small and checksummed files: and last) byte of every region + every 13th (csg: every 4th) truncation length; all three values on range-checkable metrics fields and sst type tags; chunk-header bytes, region boundaries + every 11th "
+                     extra={"tier_plan": ("quick: first (small and checksummed files: and last) byte of every region + every 13th (csg: every 3rd) truncation length; all three values on range-checkable metrics fields and sst type tags; chunk-header bytes, region boundaries + every 11th (csg: every 6th) "
                                           "offset with one of 3 values; model replay candidates (first byte of every csg := each encoding tag, 3 repeats)"
                                           if quick else
                                           "thorough: every truncation length; 3 values at every offset of csg, pqmr and metrics files, 2 values at every offset of "
